@@ -55,18 +55,18 @@ Lemma next_ok f : RI (f_rd f) -> is_terminal (f_nt f) = false ->
 Proof. intros H1 H2. unfold f_next. cbn [f_rd f_set_rd]. apply rnext_RI; assumption. Qed.
 
 Lemma rof_skip_rem n : forall f, RI (f_rd f) ->
-  RI (f_rd (fst (rof_skip n f))) /\ (remn (f_rd (fst (rof_skip n f))) <= remn (f_rd f))%nat /\
-  (snd (rof_skip n f) = true -> is_terminal (f_nt (fst (rof_skip n f))) = false).
+  RI (f_rd (fst (rof_skip n f))) /\ (remn (f_rd (fst (rof_skip n f))) <= remn (f_rd f))%nat.
 Proof.
   induction n as [|n IH]; intros f H; cbn [rof_skip].
-  - cbn. split; [exact H|]. split; [lia|discriminate].
+  - cbn. split; [exact H|lia].
   - destruct (t_typ (f_nt f)) eqn:E;
       try (assert (Hn : is_terminal (f_nt f) = false) by (unfold is_terminal; rewrite E; reflexivity);
-           destruct (next_ok f H Hn) as [A B]; destruct (IH (f_next f) A) as [C [D D2]];
-           split; [exact C|]; split; [lia|exact D2]).
-    + cbn. split; [exact H|]. split; [lia|discriminate].
-    + cbn. split; [exact H|]. split; [lia|]. intros _. unfold is_terminal. rewrite E. reflexivity.
-    + cbn. split; [exact H|]. split; [lia|discriminate].
+           destruct (next_ok f H Hn) as [A B]; destruct (IH (f_next f) A) as [C D];
+           split; [exact C|lia]).
+    + cbn. split; [exact H|lia].
+    + assert (Hn : is_terminal (f_nt f) = false) by (unfold is_terminal; rewrite E; reflexivity).
+      destruct (next_ok f H Hn) as [A B]. cbn [fst]. split; [exact A|lia].
+    + cbn. split; [exact H|lia].
 Qed.
 
 Ltac ntn E := unfold is_terminal; rewrite E; reflexivity.
@@ -104,13 +104,15 @@ Proof.
   - destruct (t_typ (f_nt f)); inversion H; subst; cbn [f_rd f_set_labels rank]; (split; [split; [exact HR|discriminate]|lia]).
   - destruct (t_typ (f_nt f)) eqn:E;
       try (inversion H; subst; cbn [f_rd rank]; (split; [split; [exact HR|discriminate]|lia])).
+    2: { assert (Hn : is_terminal (f_nt f) = false) by ntn E. destruct (next_ok f HR Hn) as [A B].
+         inversion H; subst. cbn [rank]. split; [split; [exact A|discriminate]|lia]. }
     assert (Hn : is_terminal (f_nt f) = false) by ntn E.
     destruct (tok_is_pseudo (f_nt f)).
-    + destruct (lower_is (t_val (f_nt f)) "for"); [inversion H; subst; cbn [f_rd f_set_depth rank]; (split; [split; [exact HR|discriminate]|lia])|].
+    + destruct (lower_is (t_val (f_nt f)) "for"); [inversion H; subst; cbn [f_rd f_set_depth rank]; rewrite f_mark_rd; (split; [split; [exact HR|discriminate]|lia])|].
       destruct (lower_is (t_val (f_nt f)) "rof"); [|inversion H; subst; cbn [f_rd rank]; (split; [split; [exact HR|discriminate]|lia])].
       destruct (f_depth f); inversion H; subst; cbn [f_rd f_set_depth rank]; (split; [split; [exact HR|discriminate]|lia]).
     + destruct (tok_is_op (f_nt f)).
-      * destruct (f_to_write f); inversion H; subst; cbn [f_rd f_set_to_write f_send rank]; (split; [split; [exact HR|discriminate]|lia]).
+      * inversion H; subst; cbn [rank]; rewrite f_mark_rd; (split; [split; [exact HR|discriminate]|lia]).
       * destruct (next_ok (f_set_labels f (f_labels f ++ [t_val (f_nt f)])) HR Hn) as [A B].
         inversion H; subst; cbn [f_rd f_next f_set_rd f_set_labels rank] in *. split; [split; [exact A|discriminate]|lia].
   - inversion H; subst. cbn [f_rd f_set_content rank]. split; [split; [exact HR|discriminate]|lia].
@@ -118,10 +120,10 @@ Proof.
       (assert (Hn : is_terminal (f_nt f) = false) by ntn E;
        destruct (next_ok (f_set_content f (f_content f ++ [f_nt f])) HR Hn) as [A B];
        inversion H; subst; cbn [f_rd f_next f_set_rd f_set_content rank] in *; (split; [split; [exact A|discriminate]|lia])).
-  - destruct (rof_skip_rem (S (S (length (r_toks (f_rd f))))) f HR) as [R1 [R2 R3]].
+  - destruct (rof_skip_rem (S (S (length (r_toks (f_rd f))))) f HR) as [R1 R2].
     destruct (rof_skip (S (S (length (r_toks (f_rd f))))) f) as [f1 b]. cbn [fst snd] in *.
-    destruct b; [|discriminate H]. specialize (R3 eq_refl). destruct (next_ok f1 R1 R3) as [A B].
-    inversion H; subst. cbn [f_rd f_send f_next f_set_rd rank] in *. split; [split; [exact A|discriminate]|lia].
+    destruct b; [|discriminate H].
+    inversion H; subst. cbn [f_rd f_send f_next f_set_rd rank] in *. split; [split; [exact R1|discriminate]|lia].
   - discriminate H.
 Qed.
 
